@@ -68,6 +68,25 @@ def run(rep, tier, seed):
         texts.append(p); origin.append("test-program")
         for m in mutate(p, rnd):
             texts.append(m); origin.append("mutated-test-program")
+    # EVERY single-token deletion of every test program (truncated constructs: a pattern without its binding, an
+    # operator without operand, an unbalanced bracket, ...), deduplicated
+    seen = set(texts)
+    for p in progs:
+        toks = re.findall(r"\s+|\w+|[^\w\s]", p)
+        if len(toks) > (250 if tier == "quick" else 1200): continue
+        for i in range(len(toks)):
+            if toks[i].isspace(): continue
+            m = "".join(toks[:i] + toks[i + 1:])
+            if m not in seen:
+                seen.add(m); texts.append(m); origin.append("token-deleted-test-program")
+    # every ordered PAIR of concrete alphabet members, glued and space-separated (the class strings above rotate members)
+    members = sorted({m for ms in TOK.values() for m in ms})
+    for a in members:
+        for b in members:
+            for sep in ("", " "):
+                m = a + sep + b
+                if m not in seen:
+                    seen.add(m); texts.append(m); origin.append("member-pair")
     # repository documents: whole small files and line prefixes
     files = sorted(glob.glob("/repo/docs/**/*.mec", recursive=True))
     small = [f for f in files if os.path.getsize(f) <= (1500 if tier == "quick" else 6000)]
